@@ -11,6 +11,7 @@ import itertools
 from .. import tt
 from ..hostile import adversary
 
+PYTHON_O_STRIDE = {"quick": 4, "thorough": 2}      # every n-th case is repeated in an interpreter started with -O
 RULE = ("(family, k, n, m, planted set, randomness) with k in 0..4, n in 0..6, m from 0 to max+2 "
         "(every m in thorough, boundary and spread values in quick), 0..3 planted total assignments, "
         "seeded fair runs and adversarial runs (low/repeat/high) that exhaust the sparse sampler; "
